@@ -24,6 +24,8 @@ ASSUMPTIONS = [
     "Stack: values are copies, compared exactly; the result dtype of Stack is not part of the statement",
     "Stack needs >= 2 dimensions (time and feature axes must differ) and num_vectors >= 1; pad modes None/edge/constant",
     "with in_place=True only the returned value is checked",
+    "Deltas with one NaN / +-inf entry in float data (a quarter of the cases): only entries whose reference value - the "
+    "recursion's local weighted sum over the padded vector - is finite are compared; entries the non-finite sample reaches are unconstrained",
 ]
 
 DTYPES = {"f64": np.float64, "f32": np.float32, "i32": np.int32, "i16": np.int16}
@@ -56,7 +58,7 @@ def make_tensor(shape, dtype, seed, scale, layout="C"):
 
 
 def _same(a, b):
-    return a.shape == b.shape and a.dtype == b.dtype and np.array_equal(a, b)
+    return a.shape == b.shape and a.dtype == b.dtype and np.array_equal(a, b, equal_nan=a.dtype.kind == "f")
 
 
 # ------------------------------------------------------------------ clause: deltas
@@ -90,6 +92,9 @@ def deltas_cases(draw):
         "scale": draw(st.sampled_from([1.0, 1.0, 100.0, 1e-3, 3e4])),
         "layout": draw(st.sampled_from(LAYOUTS)),
         "in_place": draw(st.sampled_from([False, False, False, True])),
+        # one non-finite entry in the data (float dtypes): frames out of the filters' reach keep finite deltas
+        "poke": draw(st.one_of(st.none(), st.none(), st.none(), st.fixed_dictionaries({
+            "pos": st.integers(0, 2 ** 20), "val": st.sampled_from(["nan", "nan", "inf", "-inf"])}))),
     }
 
 
@@ -110,6 +115,9 @@ def check_deltas(case):
     if case["dtype"] in ("i16", "i32") and scale < 1:
         scale = 100.0
     x = make_tensor(shape, case["dtype"], case["seed"], scale, case.get("layout", "C"))
+    poke = case.get("poke") if (x.dtype.kind == "f" and x.size) else None
+    if poke:
+        x[np.unravel_index(poke["pos"] % x.size, x.shape)] = float(poke["val"])
     x0 = x.copy()
     in_place = bool(case.get("in_place", False))
 
@@ -124,8 +132,9 @@ def check_deltas(case):
         # the same post-processor object may already have been applied to another tensor
         pshape = [max(2, v) for v in case["prior"]]
         call("Deltas.apply (earlier call)", d.apply, make_tensor(pshape, "f64", 7, 1.0, "C"), axis=-1)
-    out = call("Deltas.apply(axis=%d)" % axis, d.apply, x, axis=axis, in_place=in_place)
-    ref, _ = post_ref.deltas_ref(x0, nd, W, mode, axis, target, cc)
+    with np.errstate(all="ignore"):
+        out = call("Deltas.apply(axis=%d)" % axis, d.apply, x, axis=axis, in_place=in_place)
+        ref, _ = post_ref.deltas_ref(x0, nd, W, mode, axis, target, cc)
 
     require(isinstance(out, np.ndarray), "Deltas.apply returned {}", type(out).__name__)
     require(
@@ -135,8 +144,18 @@ def check_deltas(case):
     )
     require(out.dtype == x0.dtype, "result dtype {} differs from the input's {}", out.dtype, x0.dtype)
     if out.size:
-        mx = max(1.0, float(np.max(np.abs(x0.astype(np.float64)))))
-        err = np.abs(out.astype(post_ref.LD) - ref)
+        fin = np.isfinite(x0) if poke else None
+        mx = max(1.0, float(np.max(np.abs(x0.astype(np.float64)), where=fin, initial=0.0) if poke else np.max(np.abs(x0.astype(np.float64)))))
+        with np.errstate(all="ignore"):
+            err = np.abs(out.astype(post_ref.LD) - ref)
+        if poke:
+            # where the recursion's own (local) sum is finite the result must be that value; entries the
+            # non-finite sample reaches (or a statistic pad computed from it) are not constrained
+            reach = ~np.isfinite(ref)
+            require(np.isfinite(out[~reach]).all(),
+                    "one {} at flat index {} makes {} entries non-finite whose Kaldi delta recursion value is finite (only {} entries are within reach of it)",
+                    poke["val"], poke["pos"] % x0.size, int((~np.isfinite(out[~reach])).sum()), int(reach.sum()))
+            err = np.where(reach, 0, err)
         if x0.dtype.kind == "i":
             tol = 1.0 + 1e-6 * mx
         elif x0.dtype == np.float32:
@@ -155,7 +174,7 @@ def check_deltas(case):
         ta = target % nt
         sl = [slice(None)] * out.ndim
         sl[ta] = slice(0, shape[ta]) if cc else 0
-        require(np.array_equal(out[tuple(sl)], x0), "the first block of the result is not the input")
+        require(np.array_equal(out[tuple(sl)], x0, equal_nan=bool(poke)), "the first block of the result is not the input")
     if not in_place:
         require(_same(x, x0), "Deltas.apply modified its input although in_place=False")
 
@@ -182,6 +201,8 @@ def check_deltas(case):
         labels.append("target==axis")
     if in_place:
         labels.append("in_place")
+    if poke:
+        labels.append("one non-finite entry")
     nontrivial = (not empty) and nd > 0 and (ndim >= 3 or axis < 0 or target < 0)
     return {"nontrivial": nontrivial, "labels": labels}
 
